@@ -282,6 +282,11 @@ func c03Exec(op string) string {
 	if esc {
 		check("indented", bi, erri)
 	}
+	if mv, isMap := v.(map[string]interface{}); isMap && api == 0 && len(notes) == 0 && ap == "-" && hashStr(op)%3 == 0 {
+		if wn := wrapJsonToXml(mv); wn != "" {
+			notes = append(notes, wn)
+		}
+	}
 	// the same content in other Go container types (lists of strings as []string anywhere; below the
 	// levels the root rules look at also mxj.Map, map[interface{}]interface{}, map[string]string):
 	// the encoders treat them as the plain containers - same bytes
